@@ -8,7 +8,7 @@ stored as /verif/seeded/<name>/{patch.diff, demo file, meta.json}. Usage:
 import json, os, re, shutil, subprocess, sys, tempfile
 
 ENV = dict(os.environ, GOFLAGS="-mod=mod", GOPROXY="off", GOSUMDB="off", GOTOOLCHAIN="local")
-FLAKY = {"TestProvider_runPreloaded", "TestProvider_runPreloaded/context_deadline_exceeded", "Test_Instance", "Test_Instance/context_canceled_after_run_/_start_fail", "Test_InstancePool/aggregator_failed", "Test_InstancePool", "TestEncoderAggregator_AutoFlush", "Test_Engine/one_pool_failed", "Test_Engine", "TestWaiter_ContextCanceledDuringWait"}
+FLAKY = {"TestHTTPScenarioSuite", "TestHTTPScenarioSuite/Test_Http_Check_Passes", "TestHTTPScenarioSuite/Test_Http_Check_Passes/base", "TestGunSuite", "TestGunSuite/Test_SuccessScenario", "TestProvider_runPreloaded", "TestProvider_runPreloaded/context_deadline_exceeded", "Test_Instance", "Test_Instance/context_canceled_after_run_/_start_fail", "Test_InstancePool/aggregator_failed", "Test_InstancePool", "TestEncoderAggregator_AutoFlush", "Test_Engine/one_pool_failed", "Test_Engine", "TestWaiter_ContextCanceledDuringWait"}
 
 def sh(cmd, cwd, timeout=1800):
     p = subprocess.run(cmd, cwd=cwd, env=ENV, shell=True, stdout=subprocess.PIPE, stderr=subprocess.STDOUT, text=True, timeout=timeout)
